@@ -356,6 +356,35 @@ def run(prog, rep):
     st = [n for (b, i, n) in rs.nodes() if n["k"] == "asg" and strip_casts(n["l"])["k"] == "member" and strip_casts(n["l"])["field"] == "closed" and cv(n["r"]) == 0]
     rep.ob("C11.2", rs, "reset", len(rsl) == 1 and len(st) == 1, "reset re-initialises the algorithm state and reopens the hash" if (len(rsl) == 1 and len(st) == 1) else
            "reset does not both re-initialise the state and clear closed", rs.loc[0])
+    # ... whatever state the hash is in: an open context already holds the bytes of earlier updates, and only the algorithm's reset
+    # discards them ("since creation or the last reset").  Every path with a non-NULL hash passes the reset slot and the store
+    skipped = []
+    if len(rsl) == 1 and len(st) == 1:
+        hp_ = rs.param_names()[0]
+
+        def rs_stmt(st_, b, i, stmt):
+            facts, did = st_
+            for n in walk(stmt):
+                if n is rsl[0][2]:
+                    did = did | {"slot"}
+                if n is st[0]:
+                    did = did | {"open"}
+            if stmt["k"] == "ret":
+                if did != {"slot", "open"} and guards.lookup(facts, hp_) != 0:
+                    skipped.append(line(stmt))
+                return []
+            return [(guards.transfer(facts, stmt), did)]
+
+        def rs_edge(st_, b, to, on):
+            f2 = guards.edge_assume(st_[0], b, on)
+            return None if f2 is None else (f2, st_[1])
+        fl_ = Flow(rs, [(guards.EMPTY, frozenset())], rs_stmt, rs_edge).run()
+        for (parent, (facts, did)) in fl_.exit_states():
+            if did != {"slot", "open"} and guards.lookup(facts, hp_) != 0:
+                skipped.append(rs.loc[0])
+    rep.ob("C11.2", rs, "reset:unconditional", len(rsl) == 1 and len(st) == 1 and not skipped, "every path through reset with a hash object re-initialises the state and reopens it" if not skipped else
+           "line %d: reset returns without having run the algorithm's reset on a path with a valid hash (a hash that is still open keeps the bytes of its earlier updates: "
+           "update (A), reset, update (B) yields H(A||B))" % skipped[0], skipped[0] if skipped else rs.loc[0])
     gd = hu.fn("p_crypto_hash_get_digest")
     cp = facts_at(gd, lambda c: c.get("callee") in MEMFUNCS)
     hp = gd.param_names()[0]
@@ -1091,12 +1120,14 @@ _run_clauses = run
 def run(prog, rep):
     _run_clauses(prog, rep)
     from plint.wiring import check_zero_init
-    check_zero_init(rep, "C11.6", prog, ['pcryptohash.c', 'pcryptohash-md5.c', 'pcryptohash-sha1.c', 'pcryptohash-sha2-256.c', 'pcryptohash-sha2-512.c', 'pcryptohash-sha3.c', 'pcryptohash-gost3411.c'], 7)
+    check_zero_init(rep, "C11.6", prog, ['pcryptohash.c', 'pcryptohash-md5.c', 'pcryptohash-sha1.c', 'pcryptohash-sha2-256.c', 'pcryptohash-sha2-512.c', 'pcryptohash-sha3.c', 'pcryptohash-gost3411.c'], 1)
 
 # generic robustness battery: renaming every local/parameter in these files must not change any verdict
 RENAME_LOCALS = ['src/pcryptohash.c', 'src/pcryptohash-sha3.c']   # md5/sha1 use unhygienic round macros that name the locals
 
 SELFTEST = [
+    dict(id="reset-only-when-closed", file="src/pcryptohash.c", expect="C11.2",
+         old="\thash->reset (hash->context);\n\thash->closed = FALSE;", new="\tif (!hash->closed)\n\t\treturn;\n\n\thash->reset (hash->context);\n\thash->closed = FALSE;"),
     dict(id="sha256-working-copy-one-too-far", file="src/pcryptohash-sha2-256.c", expect="C11.5",
          old="\tfor (i = 0; i < 8; i++)\n\t\tA[i] = ctx->hash[i];", new="\tfor (i = 0; i <= 8; i++)\n\t\tA[i] = ctx->hash[i];"),
     dict(id="sha3-theta-column-one-too-far", file="src/pcryptohash-sha3.c", expect="C11.5",
